@@ -206,6 +206,7 @@ fn idioms() -> &'static Vec<Case> {
             "sqrt(X)*sqrt(Y)", "sqrt(X*Y)", "sqrt(X)/sqrt(Y)", "sqrt(X/Y)", "sqrt(X+Y)", "sqrt(X-Y)", "X%Y%Z", "(X%Y+Y)%Y", "(0-X)%Y", "(X-Y)%Z", "(X*Y)%Y", "X*(0-1)", "(0-1)*X", "0-X", "0*X+Y", "X*0+Y", "(X-X)*Y", "X*1+Y", "X/1+Y", "X^1+Y", "X^0+Y", "(X+0)*Y",
             "sgn(X)*abs(X)", "sgn(X*Y)", "abs(X)/X", "abs(X*Y)", "abs(X-Y)", "abs(X)-abs(Y)", "floor(X)+ceil(X)", "X-floor(X)", "X-trunc(X)", "floor(-X)", "ceil(-X)", "round(-X)", "round(X+Y)", "trunc(X*Y)", "floor(X)/Y", "floor(floor(X)/Y)",
             "log(X^2,3)", "log(X²,Y)", "log(pow(X,2),2)", "lb(X^2)", "ln(X²)", "ln(X^4)", "sqrt(X^4)", "sqrt((X-Y)^2)", "log(X^Y,Z)", "abs(X^3)", "cbrt(X^3)", "root(2,X^2)", "exp(2*ln(X))", "ln(abs(X))", "log(abs(X),2)",
+            "w(X)*w(Y)", "1/w(X)+1/w(Y)", "w(X)-w(Y)", "atan2(w(X),w(Y))", "w(X)*(w(Y))", "w(X)+w(X)", "sqrt(X)*sqrt(Y)", "sin(X)*sin(Y)", "exp(X)/exp(Y)", "ln(X)-ln(Y)", "X!/Y!", "abs(X)*abs(Y)", "floor(X)*ceil(Y)",
             "w(X*e^X)", "w(X)*e^w(X)", "ilog(X^Y,X)", "ilog(X*Y,Y)", "X^ilog(Y,X)", "pow(X,Y)*pow(X,Z)", "root(X^Y,Y)", "root(X,Y)^Y", "(X+Y)²", "(X-Y)²", "(X*Y)²", "(X+Y)³", "X²-Y²", "(X+Y)*(X-Y)", "X²+2*X*Y+Y²", "(X+Y)°", "(X*Y)rad",
             "X(Y+Z)", "(X+Y)(X-Y)", "2(X+Y)", "(X+Y)pi", "-X^2", "-(X^2)", "(-X)^2", "-X²", "-(X²)", "(-X)²", "-X!", "-(X!)", "(X!)!", "(X²)!", "(X!)²",
         ];
